@@ -273,6 +273,9 @@ def finish(ctx, gate, level='proof', extra_cov=None, rule=''):
     disagreements = [d for d in ctx.disagreements if d is not None]
     rc = 0
     os.makedirs(os.path.join(VERIF, 'replays'), exist_ok=True)
+    import glob
+    for old in glob.glob(os.path.join(VERIF, 'replays', f'{ctx.pid}-{ctx.seed}-*.json')):
+        os.remove(old)
     nviol = 0
     if new_fail:
         sigs = []
